@@ -5,7 +5,10 @@ go 1.21
 require (
 	github.com/anishathalye/porcupine v1.3.0
 	github.com/datastax/go-cassandra-native-protocol v0.0.0
+	github.com/pierrec/lz4/v4 v4.0.3
 	github.com/rs/zerolog v1.20.0
 )
+
+require github.com/golang/snappy v0.0.3 // indirect
 
 replace github.com/datastax/go-cassandra-native-protocol => /repo
